@@ -49,6 +49,9 @@ structure Inv (b0 : Bay) (e : Emu) (b : Bay) : Prop where
   safe : b.Safe
   mirrors : Mirrors e b
   sync : ∀ (mi : Nat) (m : Mux), b.muxes[mi]? = some m → b.MuxSync false mi m ∨ b.Virgin mi m
+  /-- channels that are no mux's input keep the callback list `mux_init` gave them -/
+  selCbs : ∀ (s : Nat), (∀ (mi : Nat) (m : Mux) (i : Nat), b0.muxes[mi]? = some m →
+    m.inputs[i]? ≠ some (some s)) → b.cbsOf s = b0.cbsOf s
 
 /-! ### `flushAll` -/
 
@@ -156,15 +159,11 @@ theorem selOk_of_mirrors {e : Emu} {m : Mux} (ht : e.shape.IsTrack m) (hs : Shap
     after any `Sim` step of the emulator (in particular `modelEvent`): the writes
     lead to a bay mirroring the new state, `bay_propagate` succeeds, and the
     result mirrors the flushed new state with every mux in sync again. -/
-theorem Inv.step {P : Src → Prop} {e e' : Emu} {b0 b : Bay} (hc : e.shape.connect = .ok b0) (hs : Shaped e)
-    (hi : Inv b0 e b) (hsim : SimP P e e') :
-    Shaped e'.flushAll ∧ e'.flushAll.shape = e.shape ∧
-    ∃ b1 b2 em, Bay.Writes (e.shape.okP P) b b1 ∧ Mirrors e' b1 ∧
-      (∀ c, b1.chan c = b.chan c ∨ c < e.shape.L) ∧
-      b1.propagate = .ok (b2, em) ∧ Inv b0 e'.flushAll b2 := by
-  obtain ⟨hs', hshape, hw⟩ := hsim hs
-  obtain ⟨b1, hwP, hm1⟩ := hw b hi.mirrors
-  have hw1 : Bay.Writes (· < e.shape.L) b b1 := hwP.mono (fun _ h => Shape.okP_lt h)
+theorem Inv.step_core {e e' : Emu} {b0 b b1 : Bay} (hc : e.shape.connect = .ok b0)
+    (hi : Inv b0 e b) (hs' : Shaped e') (hshape : e'.shape = e.shape)
+    (hw1 : Bay.Writes (· < e.shape.L) b b1) (hm1 : Mirrors e' b1) :
+    (∀ c, b1.chan c = b.chan c ∨ c < e.shape.L) ∧
+    ∃ b2 em, b1.propagate = .ok (b2, em) ∧ Inv b0 e'.flushAll b2 := by
   have hbuilt := Shape.connect_built hc
   have hlay : b.Layered e.shape.L := by
     have := hbuilt.topo.layered
@@ -184,12 +183,16 @@ theorem Inv.step {P : Src → Prop} {e e' : Emu} {b0 b : Bay} (hc : e.shape.conn
   obtain ⟨wf2, hcl2, hmx2⟩ := Bay.propagate_wf wf1 hp
   have hlen1 : b1.chans.length = b.chans.length := hw1.length
   have hlen2 := Bay.propagate_length wf1 hp
-  refine ⟨hs'.flushAll, (Emu.shape_flushAll e').trans hshape, b1, b2, em, hwP, hm1, ?_, hp, ?_⟩
+  refine ⟨?_, b2, em, hp, ?_⟩
   · intro c
     by_cases hcl : c < e.shape.L
     · exact Or.inr hcl
     · exact Or.inl (hkeep1 c hcl)
-  refine ⟨wf2, (hmx2.trans hmx1).trans hi.muxes, (hlen2.trans hlen1).trans hi.len, hcl2, sf2, ?_, ?_⟩
+  refine ⟨wf2, (hmx2.trans hmx1).trans hi.muxes, (hlen2.trans hlen1).trans hi.len, hcl2, sf2, ?_, ?_, ?_⟩
+  rotate_right
+  · intro s hs0
+    rw [Bay.propagate_cbs_noninput wf1 hp s (by rw [hmx1, hi.muxes]; exact hs0), Bay.cbsOf_congr hcbs1]
+    exact hi.selCbs s hs0
   · -- the flushed sources
     intro s ch hsrc
     rw [Emu.src_flushAll] at hsrc
@@ -237,6 +240,17 @@ theorem Inv.step {P : Src → Prop} {e e' : Emu} {b0 b : Bay} (hc : e.shape.conn
             rw [hmx1] at hm'; exact hsrcNotOut _ hselL mj m' hm'), hclean1 _ hd]
           exact v1
         · rw [q1, hkeep1 m.out (by omega)]; exact v2
+
+theorem Inv.step {P : Src → Prop} {e e' : Emu} {b0 b : Bay} (hc : e.shape.connect = .ok b0) (hs : Shaped e)
+    (hi : Inv b0 e b) (hsim : SimP P e e') :
+    Shaped e'.flushAll ∧ e'.flushAll.shape = e.shape ∧
+    ∃ b1 b2 em, Bay.Writes (e.shape.okP P) b b1 ∧ Mirrors e' b1 ∧
+      (∀ c, b1.chan c = b.chan c ∨ c < e.shape.L) ∧
+      b1.propagate = .ok (b2, em) ∧ Inv b0 e'.flushAll b2 := by
+  obtain ⟨hs', hshape, hw⟩ := hsim hs
+  obtain ⟨b1, hwP, hm1⟩ := hw b hi.mirrors
+  obtain ⟨hk, b2, em, hp, hinv⟩ := hi.step_core hc hs' hshape (hwP.mono (fun _ h => Shape.okP_lt h)) hm1
+  exact ⟨hs'.flushAll, (Emu.shape_flushAll e').trans hshape, b1, b2, em, hwP, hm1, hk, hp, hinv⟩
 
 /-- **Simulation + step for one event of the reference emulator.** -/
 theorem Inv.modelEvent {e e' : Emu} {b0 b : Bay} {ti m c v : Nat} {p : List Nat}
